@@ -12,7 +12,9 @@ RULE = (
     "for riscv, riscv:rvc, riscv:rvf, x86_64, arm and arm:thumb every instruction class with a syntax (data "
     "directives db/dw/dd/... excluded) is instantiated by Hypothesis from syntax.formal_arguments (all "
     "registers of the declared class, ints from the probed accepted set, labels, all constructor "
-    "alternatives); relocations of label operands are applied with a synthetic in-range symbol value; the "
+    "alternatives) and, deterministically, every register is put into every register field one field at a "
+    "time for each addressing-mode constructor (base x index product for two-register memory operands); "
+    "relocations of label operands are applied with a synthetic in-range symbol value; the "
     "emitted bytes are decoded by the reference disassembler (llvm-mc 14 for RISC-V/ARM/Thumb, GNU objdump "
     "for x86-64) in one batch; decoding must consume exactly len(encode()) bytes and the hand-written "
     "normalisation of the decoded text must equal the normalisation of str(instance): same mnemonic class, "
@@ -122,6 +124,8 @@ def replay(case):
 # ---------------------------------------------------------------------------
 # known findings
 
+SWEEP_PER_FORM = 2  # quick tier: classes per shard swept for each addressing-mode constructor
+
 KF_IMM_ALIAS = "C08-KF1"  # printed immediate is an alias of the decoded one (C10 root cause)
 KF_RVC_REG = "C08-KF2"  # rvc 3-bit register fields keep the low bits of any register
 KF_X86_HIGH8 = "C08-KF3"  # x86 ah/ch/dh/bh are always encoded with a REX prefix
@@ -208,16 +212,7 @@ def _has_ctor(args, names, value=None):
     return False
 
 
-def _reg_paths(cls, args, prefix=()):
-    for i, (fa, a) in enumerate(zip(cls.syntax.formal_arguments, args)):
-        k = G.kind_of(fa._cls)
-        if k == "reg":
-            yield prefix + (i,), fa._cls
-        elif k == "ctor":
-            for sub in G.ctor_options(fa._cls):
-                if sub.__name__ == a[1]:
-                    for r in _reg_paths(sub, a[2], prefix + (i, sub.__name__)):
-                        yield r
+_reg_paths = G.reg_paths
 
 
 def _reg_alias(desc, data, printed, decoded, names):
@@ -431,6 +426,40 @@ def _worker(arg):
             target, cid, canonical=True, reg_filter=_reg_filter_for(target, cid), int_filter=_int_filter_for(target, cid)
         )
         hyp_search(strat, prop, n, subseed(seed, cid), stats)
+    # deterministic register sweep (every register in every register field, one field at a time,
+    # per addressing-mode constructor; base x index product for two-register memory operands).
+    # quick: every class for its top-level register fields, and for each constructor form the
+    # first SWEEP_PER_FORM classes of this shard that use it; thorough: every class, every form.
+    nrandom = len(cases)
+    form_count = collections.Counter()
+    for cid in cids:
+        cls = G.class_by_id(target, cid)
+        if G.is_data_pseudo(cls) or cls.__module__.endswith("data_instructions") or not G.supported(target, cid):
+            continue
+        kf = class_exclusion(target, cid)
+        if kf and kf in open_ids:
+            continue
+        if per_target <= 5000:
+            alts = set()
+            for i, sub in G.ctor_alternatives(cls):
+                if form_count[sub.__name__] < SWEEP_PER_FORM:
+                    alts.add(sub.__name__)
+            for n_ in alts:
+                form_count[n_] += 1
+        else:
+            alts = None
+        for desc in G.sweep_descs(target, cid, reg_filter=_reg_filter_for(target, cid), alternatives=alts):
+            key = G.key_of(desc)
+            if key in seen:
+                continue
+            try:
+                ins, text, data = prepare(desc)
+            except Discard:
+                stats.discard("sweep: not encodable")
+                continue
+            seen.add(key)
+            cases.append((desc, text, data))
+    stats.hist["%s/register sweep instances" % target] += len(cases) - nrandom
     decoded = L.reference_decode(target, [c[2] for c in cases]) if cases else []
     per_class = collections.Counter()
     for (desc, text, data), dec in zip(cases, decoded):
